@@ -86,6 +86,9 @@ pub fn inside_convex(pt: P, poly: &[P], eps: f64) -> bool {
         let a = poly[i];
         let b = poly[(i + 1) % n];
         let len = ((b.0 - a.0).powi(2) + (b.1 - a.1).powi(2)).sqrt();
+        if len == 0.0 {
+            continue;
+        }
         if o * cross(a, b, pt) < -eps * len {
             return false;
         }
@@ -137,40 +140,58 @@ pub fn convex_intersection(p: &[P], q: &[P]) -> Vec<P> {
         for j in 0..q.len() {
             if let Some(x) = seg_intersection(p[i], p[(i + 1) % p.len()], q[j], q[(j + 1) % q.len()])
             {
-                pts.push(x);
+                // for almost parallel edges the parameters are ill conditioned: keep the point only if it
+                // really lies in both polygons
+                if inside_convex(x, p, 1e-9 * scale) && inside_convex(x, q, 1e-9 * scale) {
+                    pts.push(x);
+                }
             }
         }
     }
     if pts.len() < 3 {
         return vec![];
     }
-    let c = centroid_mean(&pts);
-    pts.sort_by(|a, b| {
-        let aa = (a.1 - c.1).atan2(a.0 - c.0);
-        let bb = (b.1 - c.1).atan2(b.0 - c.0);
-        aa.partial_cmp(&bb).unwrap()
-    });
-    // drop (near-)duplicates
-    let mut out: Vec<P> = vec![];
-    for v in pts {
-        if let Some(l) = out.last() {
-            if (l.0 - v.0).abs() <= 1e-11 * scale && (l.1 - v.1).abs() <= 1e-11 * scale {
-                continue;
-            }
-        }
-        out.push(v);
-    }
-    if out.len() >= 2 {
-        let f = out[0];
-        let l = *out.last().unwrap();
-        if (l.0 - f.0).abs() <= 1e-11 * scale && (l.1 - f.1).abs() <= 1e-11 * scale {
-            out.pop();
-        }
-    }
+    let out = convex_hull(pts);
     if out.len() < 3 {
         return vec![];
     }
     out
+}
+
+/// Andrew's monotone chain; returns a strictly convex CCW polygon (collinear and duplicate points dropped)
+pub fn convex_hull(pts: Vec<P>) -> Vec<P> {
+    // merge points closer than 1e-11 * scale (quadratic, the sets are tiny): micro-edges between numerically
+    // coincident points would have arbitrary directions and break the half-plane tests
+    let scale = pts.iter().fold(0.0f64, |m, v| m.max(v.0.abs()).max(v.1.abs())).max(1e-300);
+    let dtol = 1e-11 * scale;
+    let mut kept: Vec<P> = Vec::with_capacity(pts.len());
+    for v in pts {
+        if !kept.iter().any(|k| (k.0 - v.0).abs() <= dtol && (k.1 - v.1).abs() <= dtol) {
+            kept.push(v);
+        }
+    }
+    let mut pts = kept;
+    pts.sort_by(|a, b| a.partial_cmp(b).unwrap());
+    let n = pts.len();
+    if n < 3 {
+        return pts;
+    }
+    let mut h: Vec<P> = Vec::with_capacity(2 * n);
+    for i in 0..n {
+        while h.len() >= 2 && cross(h[h.len() - 2], h[h.len() - 1], pts[i]) <= 0.0 {
+            h.pop();
+        }
+        h.push(pts[i]);
+    }
+    let lower = h.len() + 1;
+    for i in (0..n - 1).rev() {
+        while h.len() >= lower && cross(h[h.len() - 2], h[h.len() - 1], pts[i]) <= 0.0 {
+            h.pop();
+        }
+        h.push(pts[i]);
+    }
+    h.pop();
+    h
 }
 
 pub fn intersection_area(p: &[P], q: &[P]) -> f64 {
@@ -223,21 +244,19 @@ pub fn pt_seg(p: P, a: P, b: P) -> f64 {
 /// Area of `base` not covered by any polygon of `others` (all convex), by inclusion-exclusion.
 pub fn uncovered_area(base: &[P], others: &[Vec<P>]) -> f64 {
     // keep only those that intersect base
-    let cand: Vec<Vec<P>> = others
+    let cand: Vec<&Vec<P>> = others
         .iter()
-        .map(|o| convex_intersection(base, o))
-        .filter(|x| x.len() >= 3 && shoelace(x) > 0.0)
+        .filter(|o| {
+            let x = convex_intersection(base, o);
+            x.len() >= 3 && shoelace(&x) > 0.0
+        })
         .collect();
-    let n = cand.len();
     let mut covered = 0.0;
-    // sum over non-empty subsets, (-1)^{|S|+1} area(∩S)
-    fn rec(cand: &[Vec<P>], start: usize, cur: &[P], depth: usize, acc: &mut f64) {
+    // sum over non-empty subsets S of (-1)^{|S|+1} area(base ∩ ⋂S); the running polygon is always intersected
+    // with an original rectangle
+    fn rec(cand: &[&Vec<P>], start: usize, cur: &[P], depth: usize, acc: &mut f64) {
         for i in start..cand.len() {
-            let inter = if depth == 0 {
-                cand[i].clone()
-            } else {
-                convex_intersection(cur, &cand[i])
-            };
+            let inter = convex_intersection(cur, cand[i]);
             if inter.len() < 3 {
                 continue;
             }
@@ -253,8 +272,6 @@ pub fn uncovered_area(base: &[P], others: &[Vec<P>]) -> f64 {
             rec(cand, i + 1, &inter, depth + 1, acc);
         }
     }
-    if n > 0 {
-        rec(&cand, 0, &[], 0, &mut covered);
-    }
+    rec(&cand, 0, base, 0, &mut covered);
     (shoelace(base) - covered).max(0.0)
 }
